@@ -65,6 +65,7 @@ def generate(rng, tier, index):
         "right": rng.randrange(0, 3),
         "reverse": rng.random() < 0.3,
         "init_epoch": [rng.choice([0, 0, 1, 3]) for _ in range(W)],
+        "len_mid_epoch": rng.random() < 0.3,
     }
     # one empty transcript; not together with dynamic batch sizes unless sos/eos make its
     # loaded length positive: "x * y <= Y * batch_size" leaves x undefined for y = 0
@@ -79,8 +80,10 @@ def generate(rng, tier, index):
     for _ in range(rng.randrange(2, 7)):
         r = rng.randrange(W)
         k = rng.random()
-        if k < 0.6:
+        if k < 0.5:
             ops.append(["epoch", r])
+        elif k < 0.62:
+            ops.append(["abandon", r, rng.randrange(0, 4)])  # k batches of an epoch, then the iterator is dropped
         elif k < 0.72:
             ops.append(["restart", r])
         elif k < 0.85:
@@ -545,6 +548,25 @@ def execute(sc):
                     loaders[r].epoch = op[2]
                     res.bump("fault.epoch_jump")
                     continue
+                if op[0] == "abandon":
+                    with sd.node(r if W > 1 else None, W if W > 1 else None):
+                        try:
+                            it = iter(loaders[r].batch_sampler if kind == "bare" else loaders[r])
+                            for _ in range(op[2]):
+                                next(it)
+                        except StopIteration:
+                            pass
+                        except Exception as err:  # noqa
+                            import traceback
+
+                            if not any("pydrobert" in f.filename for f in traceback.extract_tb(err.__traceback__)):
+                                raise
+                            res.violate("deliver.raised", f"{kind}: a partially consumed epoch raised {type(err).__name__}: {err}", exc=type(err).__name__, kind=kind)
+                            return res
+                        del it
+                    res.bump("fault.iterator_abandoned")
+                    res.log.add("abandon", r, op[2])
+                    continue
                 # ---- one epoch on rank r
                 ld = loaders[r]
                 with sd.node(r if W > 1 else None, W if W > 1 else None):
@@ -558,7 +580,11 @@ def execute(sc):
                     else:
                         try:
                             L = len(ld)
-                            got = list(ld)
+                            got = []
+                            for b in ld:
+                                got.append(b)
+                                if sc.get("len_mid_epoch") and len(got) == 1:
+                                    len(ld)  # asking mid-epoch must not disturb the epoch in progress
                         except Exception as err:  # noqa
                             import traceback
 
@@ -622,9 +648,28 @@ def execute(sc):
                     res.bump("probe.epoch_redelivered")
                 repro[key] = digest
                 res.states.add(str((kind, n % max(W, 1), sc["drop_last"], sc["num_length_buckets"] > 1, len(idx_batches))))
-            # exactly-once across ranks for epochs every rank delivered
-            if W > 1 and eff_mode in ("uneven", "raise", "drop"):
-                pass  # per-rank exactly-once against the sampler's own split is checked above; the split itself is C13
+            # exactly-once across ranks: the loaders' samplers must split every delivered epoch
+            # exactly (the per-rank delivery against the rank's own share is checked above)
+            if W > 1:
+                for e in sorted({e for (_, e) in repro}):
+                    shares = []
+                    for r in range(W):
+                        with sd.node(r, W):
+                            shares.append([int(i) for i in loaders[r].batch_sampler.sampler.get_samples_for_epoch(e)])
+                    flat = [i for sh in shares for i in sh]
+                    if eff_mode == "ignore":
+                        if any(sorted(sh) != list(range(n)) for sh in shares):
+                            res.violate("ranks.ignore", f"epoch {e}: with on_uneven_distributed='ignore' every rank must see all {n} utterances; shares {shares}", mode=eff_mode)
+                            return res
+                        continue
+                    if len(set(flat)) != len(flat):
+                        res.violate("ranks.overlap", f"epoch {e}: {kind} loaders of different ranks deliver the same utterance: shares {shares} (mode {eff_mode})", mode=eff_mode)
+                        return res
+                    want_n = n - n % W if eff_mode == "drop" else n
+                    if len(flat) != want_n or (eff_mode == "drop" and len({len(sh) for sh in shares}) > 1):
+                        res.violate("ranks.cover", f"epoch {e}: ranks together are given {len(flat)} of {n} utterances (mode {eff_mode}, W={W}): shares {shares}", mode=eff_mode)
+                        return res
+                    res.bump("probe.cross_rank_split_checked")
     res.nontrivial = n >= 2 and res.steps >= 1
     return res
 
@@ -680,14 +725,14 @@ def sample_repr(sc):
     return {k: v for k, v in sc.items() if k not in ("salt", "torch_seed")}
 
 
-GROUP_KEYS = ("oracle", "exc", "part", "empty", "drop", "dynamic", "where", "suppress_uttids")
+GROUP_KEYS = ("oracle", "exc", "part", "empty", "drop", "dynamic", "where", "suppress_uttids", "mode")
 BUDGET = {"quick": 20000, "thorough": 80000}
 WALL_CAP = {"quick": 300, "thorough": 3000}
 RULE = (
     "run i derives a job from sha256(VERIF_SEED/C14/i): loader kind (SpectDataLoader / LangDataLoader / ContextWindowDataLoader over a generated "
     "data directory in SimFS, or a bare BucketBatchSampler with arbitrary maps), 0..24 utterances with lengths drawn to create ties and outliers, "
     "batch size, bucket count, dynamic sizing, drop_last, shuffle, sort_batch, batch_first, suppress_*, tokens_only, sos/eos, deltas, mvn, W in 1..3 "
-    "ranks with an uneven mode, and a 3..7-step interleaving of EPOCH / RESTART / JUMP / PERTURB_RNG per rank. One evaluation = one job. Non-trivial = "
+    "ranks with an uneven mode, and a 3..7-step interleaving of EPOCH / ABANDON (k batches, then the iterator is dropped) / RESTART / JUMP / PERTURB_RNG per rank (len() also asked mid-epoch). One evaluation = one job. Non-trivial = "
     ">= 2 utterances and >= 1 epoch delivered (or a mandated raise); distinct = scenario hash."
 )
 STATE_MEASURE = "distinct (kind, N mod W, drop_last, bucketed, number of batches) classes delivered"
